@@ -9,7 +9,7 @@
    implementation and by byte-exact correspondence of the session model, not by a theorem (DESIGN.md, C01). *)
 From Coq Require Import ZArith List Bool.
 From Coq Require String.
-Require Import PyLib SuiteTypes Crypto KeySchedule Packet Reassembly Decryptor TlsSession TlsRecords C01P Hs13P C01SessionP C01Session12P C01SessionLegacyP HelloP.
+Require Import PyLib SuiteTypes Crypto KeySchedule Packet Reassembly Decryptor TlsSession TlsRecords C01P Hs13P C01SessionP C01Session12P C01SessionLegacyP HelloP Fresh12P.
 Import ListNotations.
 Open Scope Z_scope.
 
@@ -261,3 +261,33 @@ Theorem C01_cbc_chained_session : forall C, CryptoLaws C -> forall tbl parts key
                            InvG (Qcbcc key_c key_s a etm mlen bl) s' stc' sts' ccc' scc' 0.
 Proof. exact cbc_chained_session. Qed.
 Print Assumptions C01_cbc_chained_session.
+
+(* the premises of the five TLS <= 1.2 session theorems are what Decryptor.__init__ yields from a TLS <= 1.2 key set (the RFC 5246 6.3
+   partition of the key block: C15): keys and IVs in place, sequence numbers and RC4 offsets 0, first CBC residues = the key block's IVs *)
+Theorem C01_fresh12_aead : forall k ml tl bl comp exts a v stc sts n,
+  a = AESGCM \/ a = AESCCM -> v <> TLS13 -> comp = 0 -> ss_seq stc = 0 -> ss_seq sts = 0 -> Z.of_nat n <= 2 ^ 64 ->
+  exists d, new_decryptor (Some a) (K12 k) v ml tl bl exts comp = Ok d /\ class12 a d /\
+            P12 false (client_key k) (client_iv k) tl n d stc /\ P12 true (server_key k) (server_iv k) tl n d sts.
+Proof. exact fresh12_aead. Qed.
+Theorem C01_fresh12_chacha : forall k ml tl bl comp exts stc sts n, comp = 0 -> ss_seq stc = 0 -> ss_seq sts = 0 -> Z.of_nat n <= 2 ^ 64 ->
+  exists d, new_decryptor (Some ChaCha20Poly1305) (K12 k) TLS12 ml tl bl exts comp = Ok d /\ Chacha.class12 d /\
+            P12 false (client_key k) (client_iv k) tl n d stc /\ P12 true (server_key k) (server_iv k) tl n d sts.
+Proof. exact fresh12_chacha. Qed.
+Theorem C01_fresh12_rc4 : forall k ml tl bl comp exts v stc sts n,
+  v <> TLS13 -> 5 <= len (client_key k) <= 32 -> 5 <= len (server_key k) <= 32 -> 0 < ml -> ss_off stc = 0 -> ss_off sts = 0 ->
+  exists d, new_decryptor (Some ARC4) (K12 k) v ml tl bl exts comp = Ok d /\ Qrc4 (client_key k) (server_key k) ml n d stc sts.
+Proof. exact fresh12_rc4. Qed.
+Theorem C01_fresh12_cbc_explicit : forall k ml tl bl comp exts a v stc sts n, get_cipher_type (Some a) = CT_Block -> v = TLS12 \/ v = TLS11 -> comp = 0 -> 0 < ml ->
+  exists d, new_decryptor (Some a) (K12 k) v ml tl bl exts comp = Ok d /\
+            Qcbce (client_key k) (server_key k) a (existsb (fun e => bytes_eqb (fst e) [0; 22]) exts) ml n d stc sts.
+Proof. exact fresh12_cbc_explicit. Qed.
+Theorem C01_fresh12_cbc_chained : forall k ml tl bl comp exts a v stc sts n, get_cipher_type (Some a) = CT_Block -> v = TLS10 \/ v = SSL30 -> comp = 0 -> 0 < ml ->
+  ss_last stc = client_iv k -> ss_last sts = server_iv k ->
+  exists d, new_decryptor (Some a) (K12 k) v ml tl bl exts comp = Ok d /\
+            Qcbcc (client_key k) (server_key k) a (existsb (fun e => bytes_eqb (fst e) [0; 22]) exts) ml bl n d stc sts.
+Proof. exact fresh12_cbc_chained. Qed.
+Print Assumptions C01_fresh12_aead.
+Print Assumptions C01_fresh12_chacha.
+Print Assumptions C01_fresh12_rc4.
+Print Assumptions C01_fresh12_cbc_explicit.
+Print Assumptions C01_fresh12_cbc_chained.
